@@ -63,28 +63,68 @@ func (e eff) String() string {
 	return e.kind
 }
 
+// numeralValue is the mathematical value of a text written in one of the
+// number syntaxes strconv accepts, decided without the library's parser: an
+// integer numeral (strconv.ParseUint / ParseInt, base prefix, explicit sign,
+// underscores) is that integer exactly; a text only the float grammar accepts
+// is the float64 strconv.ParseFloat assigns to it (numbers that are not 64 bit
+// integers are float64 in the library's data model, DESIGN 6.5).
+func numeralValue(t string) (num, bool) {
+	if u, err := strconv.ParseUint(t, 0, 64); err == nil {
+		return numUint(u), true
+	}
+	if i, err := strconv.ParseInt(t, 0, 64); err == nil {
+		return numInt(i), true
+	}
+	if f, err := strconv.ParseFloat(t, 64); err == nil {
+		return numFloat(f), true
+	}
+	return num{}, false
+}
+
+// structural are the characters with a meaning in the syntax of parse.Value
+// (documentation of parse.Value: quotes and '[]{},:'); no strconv numeral
+// contains one.
+const structural = "[]{},:'\""
+
 // effOfText is the value of a text that the library re-parses (resolver
-// results and splices are documented to go through parse.Value). The parse is
-// delegated to the real parser, which is the subject of C17, not of C03.
+// results, the process environment, default texts and splices are documented
+// to go through parse.Value). A numeral means its mathematical value
+// (numeralValue) - the statement quantifies over "strings in every syntax
+// strconv accepts ... whether the value is literal or produced by variable
+// expansion" - and a text free of structural characters that is no numeral is
+// not a number, whatever the parser says. Only the structure of any other
+// text (null, bool words, quotes, lists, objects) is delegated to the real
+// parser, which is the subject of C17, not of C03.
 func effOfText(text string, cfg parse.Config) eff {
+	t := strings.TrimSpace(text)
+	if n, ok := numeralValue(t); ok {
+		return eff{kind: "num", n: n}
+	}
 	v, err := parse.ValueWithConfig(text, cfg)
 	if err != nil {
 		return eff{kind: "parse-error"}
 	}
 	switch x := v.(type) {
 	case nil:
-		if strings.TrimSpace(text) == "" {
+		if t == "" {
 			return eff{kind: "str", s: text} // empty text stays the empty string (DESIGN C02)
 		}
 		return eff{kind: "nil"}
 	case bool:
 		return eff{kind: "bool", b: x}
-	case int64:
-		return eff{kind: "num", n: numInt(x)}
-	case uint64:
-		return eff{kind: "num", n: numUint(x)}
-	case float64:
-		return eff{kind: "num", n: numFloat(x)}
+	case int64, uint64, float64:
+		if !strings.ContainsAny(t, structural) {
+			return eff{kind: "str", s: t} // no strconv grammar accepts the text: "a string that does not parse"
+		}
+		switch x := v.(type) {
+		case int64:
+			return eff{kind: "num", n: numInt(x)}
+		case uint64:
+			return eff{kind: "num", n: numUint(x)}
+		case float64:
+			return eff{kind: "num", n: numFloat(x)}
+		}
 	case string:
 		return eff{kind: "str", s: x}
 	}
